@@ -20,6 +20,8 @@ for name in sorted(n for n in os.listdir("/verif/seeded") if os.path.isdir(f"/ve
     caught = [f"{p} ({v['secs']:.0f} s)" for p, v in r.get("checks", {}).items() if v["caught"]]
     missed = [p for p, v in r.get("checks", {}).items() if not v["caught"]]
     cell = ", ".join(caught) if caught else "**not caught**"
+    if meta.get("not_caught_reason") and not caught:
+        cell = "not caught - " + meta["not_caught_reason"]
     if meta.get("superseded_by_fix"):
         cell = f"superseded: fix `{meta['superseded_by_fix']}` removed the defect class, the change is harmless on (and does not apply to) the final tree"
         caught = ["superseded"]
